@@ -2,6 +2,7 @@
    frozen models, JSON round trip, string pre-validation and file I/O are runtime behaviour, exercised by the run. *)
 From Curies.model Require Import Str PyData Trie Conv Query Val Answer Spec CheckQ Reference.
 From Curies.proofs Require Import StrFacts IndexFacts QueryFacts SortFacts ReferenceFacts.
+From Curies.proofs Require Import PModelRef.
 
 (* prints as prefix:identifier and parses back, splitting at the first separator only *)
 Theorem C15_roundtrip : forall p i c n, ~ In 58%N p -> from_curie colon (curie (mk c p i n)) = Val (p, i).
@@ -61,3 +62,13 @@ Example C15_nonvacuous :
    ref_eq (mk CTuple [97] [49] None) (mk CRef [97] [49] None) = false /\
    ref_lt (mk CRef [97] [50] None) (mk CRef [97;97] [49] None) = true)%N.
 Proof. vm_compute. auto. Qed.
+
+(* What the run observes through the modelled functions is the property written down directly (spec_ref_obs in model/Reference.v:
+   the printed form, the pair read back, the split at the first separator, the equality table of the four classes, the order laws
+   on pairs, the canonical prefix under a converter, the triples round trip) -- on every valid case; the run's predicate is
+   "the observation equals spec_ref_obs" *)
+Theorem C15_P_model : forall p i name p2 i2 p3 i3 sep s recs,
+  no_colon p && no_colon p2 && no_colon p3 && negb (is_nil sep) && match recs with Some rs => strict_okb rs | None => true end = true ->
+  model_ref_obs p i name p2 i2 p3 i3 sep s recs = spec_ref_obs p i name p2 i2 p3 i3 sep s recs.
+Proof. exact P_C15_model. Qed.
+Print Assumptions C15_P_model.
